@@ -26,6 +26,8 @@ VARIABLES lp, objn
 W == INSTANCE LPWrite
 LPF == INSTANCE LPFile
 RT == INSTANCE RoundTrip
+MW == INSTANCE MPSWrite
+MPSF == INSTANCE MPSFile
 
 Row(f, n) == SelectSeq([j \in 1..n |-> [j |-> j, v |-> f[j]]], LAMBDA e : e.v # "0")
 Cols == [obj : {"0", "-1", "2/3"}, lo : {"-inf", "-2", "0", "1"}, up : {"-1", "0", "1", "5/2", "inf"}, int : {0, 1}]
@@ -71,6 +73,8 @@ NamesRepaired == LET cn == W!ColNames(lp)  rn == W!RowNames(lp, objn) IN
   /\ \A a, b \in 1..Len(rn) : rn[a] = rn[b] => a = b
   /\ \A a \in 1..Len(cn) : W!ValidName(cn[a]) /\ (W!ValidName(lp.cname[a]) => cn[a] = lp.cname[a])
   /\ \A a \in 1..Len(rn) : W!ValidName(rn[a]) /\ (a <= lp.m /\ W!ValidName(lp.rname[a]) => rn[a] = lp.rname[a])
+\* the same for the MPS writer (C09): ranged rows must come back as ranged rows, names are written as they are
+MPSReadsBackTheSame == (Pre(lp) /\ MW!Writable(lp)) => RT!RoundTripDefects(lp, MPSF!Denote(MW!Write(lp, objn)), TRUE) = {}
 \* the reader sees the columns in order of first appearance; nothing else may differ: column data is compared position-free, by name
 NumbersSurvive == \A j \in 1..lp.n : lp.lo[j] \notin {"inf", "-inf"} => W!BTok(W!BV(lp.lo[j])) = lp.lo[j]
 \* the token stream never contains an empty token and ends with End
